@@ -217,6 +217,50 @@ CLAIMED = {
         technique="Coq refinement proofs over the C02 semantics + program correspondence with instrumented executors",
         note="Trusted: as C02. Shipped configuration with coroutines (BC), single thread; Stop-vs-Submit interleavings are C07/C08's (explored "
              "there, cited in the evidence). Several consumers per SharedFuture only in 4 regression scenarios (S5)."),
+    "C11": dict(
+        text="Machine-checked invariant of the WaitEv transition system (WaitRange of wait_impl.hpp, one atomic/mutex/condvar operation per "
+             "step, ANY number n of futures, the timeout available at any moment): true (or return of an untimed Wait) => every word is "
+             "Result with its slot stored; false => timed call and the timeout fired; every producer operation on the stack event happens "
+             "before the return; the counter never underflows; no lost wake-up; after the return each future is Empty/not exchanged or "
+             "Result/stored and its projection satisfies the C01 invariant, so by HandoffProofs.inv_run any later consumer gets all C01 "
+             "guarantees, with the value that was stored. Tied to the code by DFS/random exploration of the real Wait/WaitFor/WaitUntil "
+             "(variadic, iterator, fast path; unique, shared, mixed; 4 deadlines in virtual time; 3 later-consumer kinds); every distinct "
+             "trace is replayed through WaitEv.run and each future's post-return suffix through Handoff.run from the projected state in Coq; "
+             "touch-after-return checked on traces and under ASan stack-use-after-return.",
+        design="DESIGN.md §5 C11, §10",
+        technique="Coq invariant proof over an executable LTS (counting argument, unbounded n) + composition with the C01 model + trace correspondence + ASan",
+        note="Trusted: as C01. n=1 exhaustive; n=2 exhaustive for 4 scenarios, preemption-bounded for the rest; n=3 seeded random. Memory orders, "
+             "spurious cv wake-ups and AtomicEvent are not modelled; shared words are modelled as E/C/R (only the waiter queued)."),
+    "C13": dict(
+        text="Machine-checked invariant of the Await transition system (one atomic operation per step, threads explicit, any number of "
+             "coroutines / awaited unique, shared and lazy objects / executors) proves for every schedule: one resumption per co_await, in "
+             "order, only when everything awaited is complete and never after the body ended; a suspended coroutine always still has a "
+             "callback in an awaited object or a queue entry (nothing lost); the value read is the awaited Result; co_return, an escaping "
+             "failure and Drop become the coroutine's own Result; awaited futures stay ready; resumption happens where the form says "
+             "(On/AwaitOn: that executor's Call; Sticky/Yield: the coroutine's own; inline: the completer's thread or not suspended); a "
+             "dropped coroutine is completed with StopError, local and frame are destroyed at most once and exactly once when released; "
+             "await_ready true only with a published Result. The readiness rule and PromiseType::Impl are read from the source on every run "
+             "(old rule refuted by a witness that is the pre-fix library's own trace). Tied to the code by coroutines interpreting generated "
+             "co_await lists on the real library (FIBER; also without symmetric transfer and under ASan): every distinct trace of the "
+             "exhaustive small configurations and of seeded random mixes is replayed through the model in Coq with equal observables.",
+        design="DESIGN.md §5 C13, §10",
+        technique="Coq invariant proof over an executable thread-explicit LTS + source-derived readiness/hand-over rules + exhaustive/random trace correspondence",
+        note="Trusted: Coq kernel + vm_compute; checks/c13_translate.py, c13_map.py; harness oracle; hooks and FIBER backend. Not modelled: "
+             "reference counting of cores (ASan watches it), executors' Call-xor-Drop contract (C05/C07/C08), memory orders (C04)."),
+    "C15": dict(
+        text="Machine-checked invariant of the CoSharedMutex transition system (one event per atomic operation on _state/_readers_wait outside "
+             "the spinlock, one per spinlock section, the two sections with a second shared atomic split) proves for any number of "
+             "reader/writer coroutines, rounds, lock/unlock forms, every schedule and all four <FIFO,ReadersFIFO> options: at most one writer "
+             "token and none together with a reader token; Try* and every non-waiting acquisition only when compatible; the cross-domain "
+             "accounting (word halves vs readers_pass/readers_wait/readers_size/writers_prio/queues); every request granted exactly once; "
+             "every parked coroutine in exactly one queue/role; every next step enabled (no source assertion fails, Run only resumes a "
+             "suspended coroutine); quiescent => everybody finished. 32+32 packing and uint32 wrap-around proved equivalent below 2^31 with "
+             "constants translated from the source. Tied to the code by exhaustive DFS of the real SharedMutex (1r+1w all forms, 2r+1w, "
+             "1r+2w; manual executor and FairThreadPool, 1-2 workers) and seeded random walks up to 3r+2w x 2 rounds, every distinct trace "
+             "replayed through the model in Coq with equal observables.",
+        design="DESIGN.md §5 C15, Appendix A.4, §10",
+        technique="Coq invariant proof over an executable LTS (weighted counts + phase disjunction) + exhaustive/random trace correspondence",
+        note="Trusted: as C01. Memory orders are C04's; counts >= 2^31, the spinlock's own exchange loop and coroutine frames are outside the model."),
 }
 
 PENDING = {}
